@@ -22,6 +22,36 @@ def _graph_texts(c, n):
     return out
 
 
+def _bigstreams(c):
+    """Long streams whose interesting places - the end of a metadata line, a CRLF pair, the end of a graph - fall on, just before
+    and just after the block sizes of buffered file reading (4096, 8192, 16384 characters; more in the thorough tier)."""
+    filler = '(f / filler :op1 "%s")' % ('x' * 150)
+    jobs = []
+    for B in _q(c, [4096, 8192, 16384], [4096, 8192, 16384, 32768, 65536, 131072]):
+        for kind in ('lf-after-metadata', 'crlf-straddles', 'end-of-graph'):
+            for delta in (-1, 0, 1):
+                nl = '\r\n' if kind == 'crlf-straddles' else '\n'
+                sep = nl + nl
+                texts, n = [], 0
+                while n + len(filler) + len(sep) < B - 400:
+                    texts.append(filler)
+                    n += len(filler) + len(sep)
+                # the adjustable text: its first line is padded so that the interesting character lands on index B - 1 + delta
+                if kind == 'end-of-graph':
+                    head = '(p / pad :op1 "'
+                    pad = (B - 1 + delta) - n - len(head) - len('")') + 1
+                    target = head + 'p' * max(pad - 1, 1) + '")'
+                else:
+                    head = '# ::pad '
+                    # index of the terminator's first character = n + len(head) + pad
+                    pad = (B - 1 + delta) - n - len(head) - (1 if kind == 'crlf-straddles' else 0)
+                    target = head + 'p' * max(pad, 1) + nl + '# ::id t' + nl + '(t / target :ARG0 (u / under))'
+                texts.append(target)
+                texts += ['# ::id after ::snt the next one' + nl + '(a / after' + nl + '   :ARG1 (b / boundary))', filler, '(l / last)']
+                jobs.append(('tr_bigstream', dict(texts=texts, sep=sep, tail=c.rng.choice(['', nl]), model='default')))
+    return jobs
+
+
 def check_C09(c):
     c.mc('MC_Stream', _q(c, 'MC_Stream_4.cfg', 'MC_Stream_5.cfg'), workers=8, heap='6g')
     jobs = []
@@ -49,6 +79,7 @@ def check_C09(c):
         k = c.rng.choice([0, 1, 2, 3])
         jobs.append(('tr_dumps', dict(texts=c.rng.sample(pool, k), model=c.rng.choice(['default', 'amr']), indent=c.rng.choice([None, -1, 0, 2]),
                                       compact=c.rng.random() < 0.3)))
+    jobs += _bigstreams(c)
     traces = pmake(jobs, procs=12)
     c.judge('J_Stream', traces, 'stream', nontrivial=lambda t: (t['kind'] == 'stream' and len(t['outs'][0]['graphs']) >= 1) or
             (t['kind'] == 'dumps' and len(t['graphs']) >= 1))
